@@ -563,7 +563,8 @@ ASTNode *InterfaceParser::parseImplDeclaration() {
                     param->is_pointer_const_qualifier =
                         param_parsed.is_pointer_const;
                     param->is_pointee_const_qualifier =
-                        param_parsed.is_const && param_parsed.is_pointer;
+                        param_parsed.is_pointee_const ||
+                        (param_parsed.is_const && param_parsed.is_pointer);
                     parser_->setLocation(param, param_name);
 
                     parameters.push_back(std::unique_ptr<ASTNode>(param));
